@@ -14,6 +14,7 @@ under every sequence of connect outcomes on the fake reactor.
 No socket is opened: ``available_tcp_port`` runs on FakeReactor.listenTCP.
 """
 import itertools
+import re
 
 from twisted.internet import protocol
 from twisted.internet.interfaces import IStreamClientEndpoint
@@ -53,8 +54,7 @@ ASSUMPTIONS = [
     "usable entry = TCP entry (port or IPv4:port) with non-zero port, or unix:path; IPv6 and 'auto' entries may be "
     "used or skipped by correct code; port 0 is not a listener",
     "leniencies: any usable entry may be chosen when none was requested; order of re-listed entries and the position "
-    "of the new one are free; option-name spelling is case-insensitive; entries with port 0 may be dropped from the "
-    "re-issued SETCONF; with SocksPort unset either Tor's built-in 127.0.0.1:9050 is used or a port is added "
+    "of the new one are free; option-name spelling is case-insensitive; with SocksPort unset either Tor's built-in 127.0.0.1:9050 is used or a port is added "
     "(re-listing nothing or 9050); TorConfig methods called without a port may raise when the first entry is unusable",
     "requests that alias an existing entry under another spelling (9050 vs 127.0.0.1:9050), that name an IPv6/zero "
     "entry, or that repeat an entry with option words are counted, and judged only on the shape of any SETCONF written",
@@ -68,6 +68,10 @@ ASSUMPTIONS = [
     "judged at quiescence: each SETCONF against what Tor had when it processed it, endpoints against Tor's final "
     "configuration; a SETCONF that re-lists exactly what Tor has is accepted as a no-op; calls that fail although no "
     "existing entry could serve them are counted only",
+    "SocksPort addresses may be host names (localhost, an FQDN): an endpoint connecting to that name (for localhost also "
+    "to a loopback literal) matches; a request for the same port on a literal address is then counted as ambiguous",
+    "another controller's change of SocksPort (FakeTor store + CONF_CHANGED) is placed inside the in-flight window of a "
+    "refused add, after the refusal, or after an accepted add; following calls are judged against FakeTor's store then",
     "fault injection: FakeTor refuses the next SETCONF(s) with 513/552/553 and changes nothing; a further SETCONF is "
     "tolerated only as a new try after a refused one and must again be 'what Tor has + exactly one new entry'; a call "
     "that fails after a refusal is fine, an endpoint for a refused port is not",
@@ -114,6 +118,26 @@ FLOORS = {
 }
 
 LOCAL_HOSTS = ("127.0.0.1", "localhost", "::1")
+
+_HOSTNAME = re.compile(r"^(?=.{1,253}$)[A-Za-z]([A-Za-z0-9-]{0,62})(\.[A-Za-z0-9]([A-Za-z0-9-]{0,62}))*$")
+_parse_first_ip_only = sockstor.parse_first
+
+
+def _parse_first_with_names(first):
+    """tor(1): SocksPort [address:]port -- the address may also be a host NAME (Tor resolves it);
+    the reference reader of vf.faketor.sockstor only knows literals, so it is extended here"""
+    t = _parse_first_ip_only(first)
+    if t is None and ":" in first and not first.startswith(("unix:", "[")):
+        host, _, port = first.rpartition(":")
+        if _HOSTNAME.match(host) and not re.match(r"^[0-9.]+$", host):
+            if port == "auto":
+                return ("auto",)
+            if port.isdigit() and int(port) <= 65535:
+                return ("tcp", host, int(port))
+    return t
+
+
+sockstor.parse_first = _parse_first_with_names        # also used by SocksStore's 513 validator
 FALLBACK_PORTS = (9050, 9150)
 
 # ---------------------------------------------------------------------------
@@ -172,6 +196,9 @@ def classify_request(req, infos):
                          and i["target"][2] == rt[2] and rt[2] != 0]
             if any(i["target"][1] in WILDCARD_HOSTS for i in same_port) or rt[1] in WILDCARD_HOSTS:
                 return "ambiguous", ri        # a wildcard listener also serves the other address
+            if any(_HOSTNAME.match(i["target"][1]) and not re.match(r"^[0-9.]+$", i["target"][1])
+                   for i in same_port) or (_HOSTNAME.match(str(rt[1])) and not re.match(r"^[0-9.]+$", str(rt[1]))):
+                return "ambiguous", ri        # a name may resolve to the other address
             if same_port:
                 return "absent-same-port", ri  # another address, same port number: a different listener
         if any(req in i["line"] for i in infos):
@@ -288,11 +315,41 @@ def _run_window(win, cfg, tor, aud, link, reactor):
     """create_socks_endpoint(<absent>) whose SETCONF is still unanswered -> another controller changes
     SocksPort (FakeTor's store changes, CONF_CHANGED is delivered to us) -> Tor refuses our SETCONF (5xx,
     nothing applied).  The calls that follow are the steps of the case."""
+    when = win.get("when", "in-flight")
     held = []
 
     def hold(rest):
         held.append(rest)
         return None
+
+    def other_controller():
+        had = tor.conf.get("SocksPort")
+        if win["change"] == "add":
+            now = had + [OTHER_X]
+        elif win["change"] == "replace":
+            now = [OTHER_X, OTHER_Y]
+        elif win["change"] == "remove-first":
+            now = had[1:] or [OTHER_Y]
+        else:
+            now = had + [OTHER_Y, OTHER_X]
+        tor.conf.values["SocksPort"] = list(now)
+        tor.conf.values["__SocksPort"] = []
+        if "CONF_CHANGED" in tor.subscribed:
+            tor.outbox += R.encode(650, [("mid", "CONF_CHANGED")] + [("mid", "SocksPort=" + v) for v in now] +
+                                   [("end", "OK")])
+        _settle(link, reactor)
+
+    if when != "in-flight":
+        # the first call is answered at once (refused: 'after-refusal', accepted: 'after-accept'),
+        # only THEN the other controller changes SocksPort
+        if when == "after-refusal":
+            code = win.get("code", 553)
+            tor.script("SETCONF", (code, [("end", REJECT_TEXT[code])]))
+        res = _call(cfg.create_socks_endpoint, reactor, win["req"])
+        o = aud.watch(res[1], "window-call") if res[0] == "returned" else None
+        _settle(link, reactor)
+        other_controller()
+        return "%s:first-call-%s" % (when, "ok" if (o is not None and o.fired and o.ok) else "failed")
     tor.handlers["SETCONF"] = hold
     res = _call(cfg.create_socks_endpoint, reactor, win["req"])
     o = aud.watch(res[1], "window-call") if res[0] == "returned" else None
@@ -539,7 +596,9 @@ def judge_step(case, step, nstep, rec, V):
             return None if k == "none" else "config-view-diverged:" + k
         if fam == "torconfig" and case.get("window"):
             # an earlier create_socks_endpoint() was refused after a CONF_CHANGED had arrived while it was in flight
-            return "after-refusal-with-conf-changed-in-flight"
+            return {"in-flight": "after-refusal-with-conf-changed-in-flight",
+                    "after-refusal": "after-refusal-then-conf-changed",
+                    "after-accept": "after-add-then-conf-changed"}[case["window"].get("when", "in-flight")]
         if fam == "torconfig" and case.get("reject") and nstep > 0:
             # an earlier create_socks_endpoint() of this history was refused by Tor
             return "after-refused-setconf"
@@ -553,6 +612,17 @@ def judge_step(case, step, nstep, rec, V):
         if unset:
             return "unset-default"
         return None
+
+    def is_name(t):
+        return t is not None and t[0] == "tcp" and bool(_HOSTNAME.match(str(t[1]))) and \
+            not re.match(r"^[0-9.]+$", str(t[1]))
+
+    def general(suffix):
+        """class when nothing structural about the history explains it"""
+        if (rclass == "present" and is_name(ri["target"])) or \
+                (rclass == "none" and usable and all(is_name(i["target"]) for i in usable)):
+            return "host-name-entry"
+        return "general/" + suffix
 
     found = []
 
@@ -586,8 +656,7 @@ def judge_step(case, step, nstep, rec, V):
             continue
         missing = _ms_sub(E, got)
         extra = _ms_sub(got, E)
-        droppable = [i["line"] for i in infos if i["kind"] == "zero"]
-        missing_hard = _ms_sub(missing, droppable)
+        missing_hard = missing              # every entry, the non-listeners ("0", "addr:0") included
         if unset and "9050" in extra and len(extra) == 2:
             extra.remove("9050")              # re-listing Tor's built-in default is fine
         ok_new = False
@@ -601,10 +670,12 @@ def judge_step(case, step, nstep, rec, V):
                     sorted(f.lower() for f in new["flags"]) == sorted(f.lower() for f in ri["flags"])
         if missing_hard or not ok_new:
             lost = [i for i in infos if i["line"] in missing_hard]
-            how = ["quoted" if i["first"].startswith('unix:"') else
+            how = ["zero" if i["kind"] == "zero" else "quoted" if i["first"].startswith('unix:"') else
                    ("opts" if i["flags"] and i["first"] in extra else
                     ("auto" if i["target"] == ("auto",) else "other")) for i in lost]
-            if lost and all(h == "auto" for h in how) and (fam != "torconfig" or len(infos) == 1):
+            if lost and all(h == "zero" for h in how):
+                c = "existing-port-0-entry"
+            elif lost and all(h == "auto" for h in how) and (fam != "torconfig" or len(infos) == 1):
                 c = "existing-auto-entry"
             elif fam in ("torconfig", "torobj") and history_cause():
                 c = history_cause()
@@ -635,7 +706,7 @@ def judge_step(case, step, nstep, rec, V):
         report("other-config-modified", history_cause() or "general",
                {"before": step["others"], "after": step["others_after"]})
     if accepted:
-        gone = _ms_sub([i["line"] for i in infos if i["kind"] != "zero"], step["E_after"])
+        gone = _ms_sub([i["line"] for i in infos], step["E_after"])
         if gone:
             report("listener-entry-changed-in-tor", history_cause() or "general",
                    {"before": E, "after": step["E_after"], "lost": gone})
@@ -647,14 +718,14 @@ def judge_step(case, step, nstep, rec, V):
         rec.count("use_existing_checked")
         judged = True
         if writes:
-            report("setconf-although-usable-entry-exists", history_cause() or ("general/" + rclass),
+            report("setconf-although-usable-entry-exists", history_cause() or general(rclass),
                    {"E": E, "req": step["req"], "writes": writes})
         if outcome[0] in ("raised", "failed"):
             lenient = fam == "torconfig" and rclass == "none" and infos[0]["kind"] != "usable"
             if lenient:
                 rec.count("unjudged_first_entry_unusable")
             else:
-                report("usable-entry-not-used", history_cause() or ("general/" + rclass),
+                report("usable-entry-not-used", history_cause() or general(rclass),
                        {"E": E, "req": step["req"], "outcome": outcome})
     elif mode == "add":
         rec.count("add_checked")
@@ -677,7 +748,9 @@ def judge_step(case, step, nstep, rec, V):
         have += added_targets
         if rclass != "none":
             have = [h for h in have if h == attempt_of(ri["target"])]
-        if T not in have:
+        if T not in have and T[0] == "tcp" and T[1] in LOCAL_HOSTS and ("tcp", "localhost", T[2]) in have:
+            rec.count("localhost_spelled_as_literal")
+        elif T not in have:
             if T[0] == "tcp" and T[2] == 0:
                 c = "zero-port-entry"
             elif T[0] == "unix" and T[1].startswith('"'):
@@ -842,7 +915,7 @@ def run_overlap(case, rec, V):
         if any(v is None or v == "" for v in got):
             report("setconf-relist-mismatch", {"n": n, "tor_had": had, "setconf_values": got})
             continue
-        missing = _ms_sub(_ms_sub(had, got), [i["line"] for i in hinfos if i["kind"] == "zero"])
+        missing = _ms_sub(had, got)
         extra = _ms_sub(got, had)
         if unset0 and not had and "9050" in extra and len(extra) == 2:
             extra.remove("9050")
@@ -867,7 +940,7 @@ def run_overlap(case, rec, V):
     rec.count("store_snapshots_compared")
     if tor.conf.snapshot_others() != others0:
         report("other-config-modified", {"before": others0, "after": tor.conf.snapshot_others()})
-    gone = _ms_sub([i["line"] for i in infos0 if i["kind"] != "zero"], E_final)
+    gone = _ms_sub([i["line"] for i in infos0], E_final)
     if gone:
         report("listener-entry-changed-in-tor", {"before": E0, "after": E_final, "lost": gone})
     # (3) no write at all when every call could be served
@@ -965,13 +1038,20 @@ OPTS_TCP = ["", "IsolateDestAddr", "IsolateSOCKSAuth NoIPv6Traffic", "KeepAliveI
 OPTS_UNIX = ["", "WorldWritable", "GroupWritable IsolateDestAddr"]
 
 FIRSTS_QUICK = ["9050", "9150", "127.0.0.1:9051", "192.168.7.2:9052", "unix:/run/tor/socks",
-                "[::1]:9054", 'unix:"/run/tor dir/socks"', "0", "auto"]
-FIRSTS_MORE = ["0.0.0.0:9053", "unix:/tmp/t.sock", "127.0.0.2:9050", "19050", "[2001:db8::1]:9055"]
+                "[::1]:9054", 'unix:"/run/tor dir/socks"', "0", "auto", "localhost:9056"]
+FIRSTS_MORE = ["0.0.0.0:9053", "unix:/tmp/t.sock", "127.0.0.2:9050", "19050", "[2001:db8::1]:9055",
+               "127.0.0.1:0", "tor.example.net:9057"]
+# further configurations of the quick tier: non-listener entries and host names, alone and mixed
+EXTRA_QUICK = [["127.0.0.1:0"], ["0", "127.0.0.1:0"], ["127.0.0.1:0", "9050 IsolateDestAddr"], ["9150", "127.0.0.1:0"],
+               ["[::1]:0", "0"], ["0", "[::1]:9054 IsolateDestAddr"], ["auto", "127.0.0.1:0"],
+               ["tor.example.net:9057"], ["tor.example.net:9057 IsolateDestAddr"], ["0", "tor.example.net:9057"],
+               ["tor.example.net:9057 IsolateSOCKSAuth", "9150"], ["localhost:9056 IsolateDestAddr", "0"],
+               ["[::1]:9054", "tor.example.net:9057 IsolateDestAddr"]]
 
 
 def with_opt(first, k):
     pool = OPTS_UNIX if first.startswith("unix:") else OPTS_TCP
-    if first in ("0",):
+    if first in ("0", "127.0.0.1:0", "[::1]:0"):
         return first
     o = pool[k % len(pool)]
     return (first + " " + o) if o else first
@@ -984,6 +1064,8 @@ def configs(tier, rnd):
            {"socks": None, "under": ["9050 IsolateDestAddr"]},
            {"socks": None, "under": ["unix:/run/tor/socks WorldWritable"]}]
     firsts = FIRSTS_QUICK + (FIRSTS_MORE if tier == "thorough" else [])
+    for e in EXTRA_QUICK:
+        out.append({"socks": list(e), "under": None})
     # one entry, every option set
     for f in firsts:
         pool = OPTS_UNIX if f.startswith("unix:") else OPTS_TCP
@@ -1012,9 +1094,8 @@ def configs(tier, rnd):
         out.append({"socks": ["9150 IPv6Traffic PreferIPv6 KeepAliveIsolateSOCKSAuth", "9155"], "under": None})
     else:
         for t in itertools.permutations(firsts, 3):
-            for _ in range(2):
-                out.append({"socks": [with_opt(f, rnd.randrange(5)) for f in t], "under": None})
-        for _ in range(6000):
+            out.append({"socks": [with_opt(f, rnd.randrange(5)) for f in t], "under": None})
+        for _ in range(4000):
             q = rnd.sample(firsts, 4)
             out.append({"socks": [with_opt(f, rnd.randrange(5)) for f in q], "under": None})
         out.append({"socks": ["9150 IPv6Traffic PreferIPv6 KeepAliveIsolateSOCKSAuth", "9155"], "under": None})
@@ -1107,7 +1188,7 @@ def overlap_cells(cfg, tier, idx, base, free):
         # discovery and FakeTor's family semantics (our model) decide the answer: not judged, not generated
         combos = [c for c in combos if len(set(a == "cfg_create" for (a, _r) in c)) == 1]
     out = []
-    if tier == "quick" or idx % 2:
+    if tier == "quick" or idx % 4:
         picks = [(idx * 5 + k * 7) % len(combos) for k in range(5)]
         sel = [(combos[j], ("burst", "hold")[(idx + k) % 2]) for k, j in enumerate(picks)]
     else:
@@ -1153,13 +1234,14 @@ def window_cells(cfg, tier, idx, base, free):
               ("cfg_create", ["9999"])]
     changes = ["add", "replace", "remove-first", "add2"]
     codes = (513, 552, 553)
-    combos = [(ch, f) for ch in changes for f in follow]
-    if tier == "quick" or idx % 2:
-        combos = [combos[(idx * 3 + k * 11) % len(combos)] for k in range(4)]
+    whens = ["in-flight", "after-refusal", "after-accept"]
+    combos = [(wh, ch, f) for wh in whens for ch in changes for f in follow]
+    if tier == "quick" or idx % 4:
+        combos = [combos[(idx * 3 + k * 37) % len(combos)] for k in range(6)]
     out = []
-    for n, (ch, (api, steps)) in enumerate(combos):
+    for n, (wh, ch, (api, steps)) in enumerate(combos):
         out.append(dict(base, api=api, steps=steps, free=free, conf_changed=True,
-                        window={"req": "9999", "change": ch, "code": codes[(idx + n) % 3]}))
+                        window={"req": "9999", "change": ch, "code": codes[(idx + n) % 3], "when": wh}))
     return out
 
 
